@@ -45,6 +45,18 @@ def run(chk):
             for o in s:
                 b += [o, "stat"]
             blocks.append(b + ["hprobe 0"])
+    # (1b) incarnation histories: a registration, destroy + re-create while its owner is still alive, then every short suffix --
+    #      the territory of the known finding F6b, explored so that any OTHER deviation there is still seen
+    regs = [f"reg 0 {o} {f}" for o in range(3) for f in range(2)]
+    suffix_ops = ([f"reg 0 {o} {f}" for o in range(3) for f in range(2)] + [f"cbunreg {o}" for o in range(3)] + [f"cbdestroy {o}" for o in range(2)] +
+                  [f"cbmove {d} {s}" for d in range(3) for s in range(3) if d != s])
+    for pre in regs:
+        sufs = list(itertools.product(suffix_ops, repeat=2)) + rng.sample(list(itertools.product(suffix_ops, repeat=3)), 400 if thorough else 120)
+        for suf in sufs:
+            b = ["hnew vsbx2", "create 0 ok 0", pre, "stat", "destroy 0", "create 0 ok 0", "stat"]
+            for o in suf:
+                b += [o, "stat"]
+            blocks.append(b + ["hprobe 0"])
     # (2) random long histories with pools larger than the table: vsbx8 (8 slots, 12 functions), noop (64 slots, 70 functions)
     for be, nf, n in (("vsbx8", 12, 30 if thorough else 10), ("noop", 70, 20 if thorough else 6), ("vsbx2", 4, 30 if thorough else 10)):
         for _ in range(n):
@@ -70,7 +82,7 @@ def run(chk):
     blocks.append(["hnew noop", "create 0 ok", "regfill 0 64", "stat", "reg 0 0 64"])
     blocks.append(["hnew noop", "create 0 ok", "regfill 0 63", "reg 0 0 63", "stat", "cbunreg 0", "reg 0 1 69", "stat"])
     blocks.append(["hnew vsbx8", "create 0 ok 0", "regfill 0 8", "reg 0 0 8"])
-    out = core.differential_blocks(chk, blocks, binp, oracle, label="callback ownership histories")
+    out = core.differential_blocks(chk, histcommon.with_end(blocks), binp, oracle, label="callback ownership histories")
     chk.cov["distinct_nontrivial"] = len({tuple(b) for b in blocks})
     chk.cov["traces_validated_against_impl"] = len(blocks)
     lens = [len(b) for b in blocks]
